@@ -216,15 +216,7 @@ func judge(r *mon.Run, seq []*mitem, class string, sampleEvery int) {
 	var buf bytes.Buffer
 	var err error
 	id := fmt.Sprintf("%s/%d", class, nCase)
-	p, pv := r.Call(id, nil, func() {
-		e := cbor.NewEncoder(&buf)
-		for _, m := range seq {
-			if err = emit(e, m); err != nil {
-				return
-			}
-		}
-	})
-	nCase++
+	// (the expectation is computed before the encoder sees the values)
 	var want []byte
 	var werr error
 	for _, m := range seq {
@@ -235,6 +227,15 @@ func judge(r *mon.Run, seq []*mitem, class string, sampleEvery int) {
 		}
 		want = append(want, b...)
 	}
+	p, pv := r.Call(id, nil, func() {
+		e := cbor.NewEncoder(&buf)
+		for _, m := range seq {
+			if err = emit(e, m); err != nil {
+				return
+			}
+		}
+	})
+	nCase++
 	got := buf.Bytes()
 	key := fmt.Sprintf("enc:%s:%s", class, mon.Short(want))
 	det := map[string]any{"class": class, "got_hex": mon.Hex(got), "want_hex": mon.Hex(want), "model": describe(seq)}
@@ -568,6 +569,38 @@ func run(r *mon.Run) {
 		}
 	}
 
+	// strings that are consecutive windows of one buffer (spare capacity reaching into the next string)
+	for ai := 0; ai < 10; ai++ {
+		if !r.Mine(ai) {
+			continue
+		}
+		g := r.Rand("arena", ai)
+		var lens []int
+		total := 0
+		for w := 0; w < 8; w++ {
+			l := mon.Pick(g, []int{0, 1, 5, 23, 24, 25, 255, 256, 300})
+			lens = append(lens, l)
+			total += l
+		}
+		arena := make([]byte, total+32)
+		for i := range arena {
+			arena[i] = byte('a' + g.Intn(26))
+		}
+		var seq []*mitem
+		off := 0
+		for w, l := range lens {
+			m := &mitem{k: kBytes, b: arena[off : off+l]}
+			if w%2 == 1 {
+				m.k = kText
+			}
+			seq = append(seq, m)
+			off += l
+		}
+		if ai%2 == 1 {
+			seq = []*mitem{{k: kArray, kids: seq}}
+		}
+		judge(r, seq, "arena-windows", 1)
+	}
 	concurrentEncoders(r)
 	// seeded random nested call sequences
 	nSeq := 10000
